@@ -1,4 +1,4 @@
-CONSTANTS MaxScript = 0 MaxN = 5 Dev = {}
+CONSTANTS MaxScript = 0 MaxPause = 0 MaxN = 5 Dev = {}
 INIT EnumInit
 NEXT CaseNext
 INVARIANT EmitCase
